@@ -74,7 +74,8 @@ class MThread:
 
 
 class Scheduler:
-    def __init__(self, seed=0, mode='uniform', schedule=None, max_steps=200000, switch_prob=0.35, stall=None):
+    def __init__(self, seed=0, mode='uniform', schedule=None, max_steps=200000, switch_prob=0.35, stall=None,
+                 stall_preempts=False):
         self.rng = random.Random(seed)
         self.mode = mode
         self.replay = list(schedule) if schedule is not None else None
@@ -103,6 +104,8 @@ class Scheduler:
         self.stall_len = 0
         self._stall_seen = 0
         self._stalled = {}            # thread -> step until which it is held back
+        # a held-back thread is *descheduled*: virtual time passes (sleepers wake) rather than letting it run early
+        self.stall_preempts = stall_preempts
         if mode == 'stall':
             self.stall_class = self.rng.choice(STALL_CLASSES)
             self.stall_nth = self.rng.choice([0, 0, 0, 1, 1, 2, 3, 5])
@@ -176,6 +179,12 @@ class Scheduler:
         """Choose the next thread to run (may be the current one)."""
         while True:
             cands = [t for t in self.threads if t.runnable()]
+            if cands and self.stall_preempts and self._stalled and self.replay is None:
+                if not [t for t in cands if self._stalled.get(t, 0) <= self.steps]:
+                    later = [t for t in self.threads if not t.finished and t.wake_time is not None and t.wake_time > self.clock]
+                    if later:
+                        self.clock = min(t.wake_time for t in later)
+                        continue
             if cands:
                 break
             sleepers = [t for t in self.threads if not t.finished and t.wake_time is not None]
